@@ -660,6 +660,17 @@ def r45(ctx: Ctx) -> RuleReport:
     rep = RuleReport('R45', r45.title, floor=4)
     fi = ctx.repo.func(F, 'format')
     from ..resolve import module_value
+    # the graph itself comes after all of its comment lines
+    for n in walk_local(fi.node):
+        if isinstance(n, ast.Call) and isinstance(n.func, ast.Attribute) and n.func.attr in ('append', 'insert') and n.args \
+                and isinstance(n.args[-1], ast.Call) and norm(n.args[-1].func) == '_format_node':
+            kx = 'penman._format:format: the text of the graph is written after its metadata lines'
+            if n.func.attr == 'append':
+                rep.ok(kx, fi.loc(n))
+            else:
+                okp, pos = try_fold(n.args[0])
+                rep.add(kx, fi.loc(n), 'violation' if okp and pos == 0 else 'undecided',
+                        f'`{norm(n)[:50]}` puts the graph in front of its own "# ::" lines: read back, the comments are attached to the NEXT graph (or lost at the end of the input)')
     line_expr = None
     filt = []
     k = v = None
